@@ -2556,6 +2556,12 @@ impl AnnotationStore {
                     id
                 )));
             } else if handle > self.annotations.len() {
+                if handle - self.annotations.len() > MAX_TEMP_ID_GAP {
+                    return Err(StamError::DeserializationError(format!(
+                        "temporary public identifier {} for annotations leaves an implausibly large gap",
+                        id
+                    )));
+                }
                 self.annotations.resize_with(handle, Default::default);
             }
             Ok(true)
@@ -2604,6 +2610,11 @@ impl<'de> serde::de::Visitor<'de> for AnnotationsVisitor<'_> {
                             "unable to resolve temporary public identifiers for annotations",
                         ));
                     } else if handle > self.store.annotations_len() {
+                        if handle - self.store.annotations_len() > MAX_TEMP_ID_GAP {
+                            return Err(serde::de::Error::custom(
+                                "temporary public identifier for annotation leaves an implausibly large gap",
+                            ));
+                        }
                         // expand the gaps, though this wastes memory if ensures that all references
                         // are valid without explicitly storing public identifiers.
                         self.store.annotations.resize_with(handle, Default::default);
